@@ -126,3 +126,71 @@ func (a *verifScriptedJoiner) Do(e *Event) ActionResult {
 	}
 	return ActionPass
 }
+
+// C04 directed scenario: the real streamer heart-beat (time-out delivery) against a processor that
+// enters and leaves blockGet while records keep arriving: nothing may wedge (lock order between the
+// blocked list and the stream), every record ends exactly one way.
+func VerifH_C04_heartbeatVsBlockGet() {
+	w := &verifWorld{streamOf: map[int64]string{}, acked: map[int64]bool{}, dropped: map[int64]bool{}, committed: map[int64]int{},
+		commitSeq: map[string][]int64{}, capacity: 4}
+	p := &Pipeline{settings: &Settings{Capacity: 4, StreamField: "stream"}, eventLogMu: &sync.Mutex{},
+		procCount: atomic.NewInt32(1), activeProcs: atomic.NewInt32(0)}
+	p.actionMetrics = actionMetrics{m: map[string]*actionMetric{}, mu: &sync.RWMutex{}}
+	p.eventPool = newLowMemoryEventPool(4)
+	w.pool = p.eventPool
+	p.streamer = newStreamer(verifEventTimeout)
+	p.input = &verifInput{w: w}
+	p.router = NewRouter()
+	out := &verifOutput{}
+	p.router.output = out
+	out.b = NewBatcher(BatcherOptions{Controller: p, Workers: 1, BatchSizeCount: 1, FlushTimeout: verifFlush,
+		OutFn: func(_ *WorkerData, batch *Batch) {
+			batch.ForEach(func(e *Event) { w.acked[e.Offset] = true })
+		}})
+	out.b.workersWg.Add(1)
+	go out.b.work()
+	proc := newProcessor(0, &p.actionMetrics, p.activeProcs, p.router, p.streamer, p.finalize, p.IncMaxEventSizeExceeded, p.IncCountEventPanicsRecovered)
+	kinds := []int{}
+	j := &verifScriptedJoiner{w: w, ctl: proc, kinds: &kinds}
+	proc.AddActionPlugin(&ActionPluginInfo{ActionPluginStaticInfo: &ActionPluginStaticInfo{PluginStaticInfo: &PluginStaticInfo{Type: "joiner"}}, PluginRuntimeInfo: &PluginRuntimeInfo{Plugin: j}})
+	go proc.process()
+	p.streamer.start() // the real heart-beat, every 200 ms
+
+	K := vf.Param("K", 3)
+	for i := 0; i < K; i++ {
+		k := 0
+		if i > 0 {
+			k = vf.Choose("line-kind", 3)
+		}
+		kinds = append(kinds, k)
+	}
+	done := false
+	go func() {
+		for i := 1; i <= K; i++ {
+			e := p.eventPool.get(1)
+			_ = e.Root.DecodeString(`{"stream":"a"}`)
+			e.Offset, e.SourceID, e.SourceName = int64(i), 1, "src"
+			off := e.Offset
+			vf.Atomic(func() {
+				w.streamOf[off] = "a"
+				w.order = append(w.order, off)
+			})
+			p.streamEvent(e)
+			if vf.Choose("pause-after-record", 2) == 1 {
+				time.Sleep(250 * time.Millisecond)
+			}
+		}
+		done = true
+	}()
+	vf.Quiesce(1500)
+	if vf.Param("twin", 0) == 1 {
+		vf.Assert(!done, "reader-never-wedged")
+		return
+	}
+	vf.Assert(done, "reader-never-wedged")
+	for _, o := range w.order {
+		vf.Assert(w.committed[o] == 1 || (w.dropped[o] && w.committed[o] == 0), "record-ends-exactly-one-way")
+	}
+	vf.Assert(p.eventPool.inUse() == 0, "in-use-returns-to-zero")
+	vf.Reach("scenario-finished")
+}
